@@ -769,6 +769,15 @@ fn analyze_match_tuple_pattern(
                 field_type_id = unroll_back_references(field_type_id, full_field_type_id, program);
             }
 
+            // Earlier branches may have used this field up (`=[A, a]`, then `=[_, a]`: nothing is
+            // left for field 0 in a third branch). The variant cannot match then - the branch is
+            // dead, like one whose whole scrutinee is used up - rather than an internal error in
+            // the sub-pattern's analysis, which expects an inhabited type.
+            if is_never(field_type_id, program) {
+                current_binding_sets.clear();
+                break;
+            }
+
             // Recursively analyze the field pattern
             let field_provenance = value_provenance.field(*actual_idx);
             let (field_binding_sets, field_narrowed_type_id) = analyze_match_pattern(
